@@ -61,7 +61,7 @@ mod verif_kani_recv_err {
         }
     }
 
-    //@harness k4_recv_error_semantics mode=complete timeout=900
+    //@harness k4_recv_error_semantics mode=complete timeout=3000
     #[kani::proof]
     fn k4_recv_error_semantics() {
         let code: i32 = kani::any();
